@@ -460,3 +460,82 @@ def a19a(P, E):
             if atom(c) == "fw_call" and c not in invs:
                 r.violate((b.nid, "foreign slot invoked"), "Observer::%s invokes another slot" % name, body=b, line=c.line)
     return r
+
+
+# --------------------------------------------------------------------------- A19b (C19)
+
+def a19b(P, E):
+    """Cross-kind exclusion: error() and complete() deliver only after winning ONE common atomic
+    test-and-set, and the winner empties the next slot before it invokes the terminal callback."""
+    from absint import SlotInterp, Unsupported
+    from rules_o import _branches_on_calls
+    r = RuleResult("A19b", "Observer::error and Observer::complete are arbitrated by one atomic test-and-set on a common "
+                           "cell (only the winner delivers) and clear the next slot before invoking the terminal callback")
+    adt = P.adts.get(OBSERVER)
+    if not adt:
+        r.error("anchor missing: struct Observer")
+        return r
+    bool_fields = [f["name"] for v in adt["variants"] for f in v["fields"]
+                   if any(l["end"] == "lock" and l["ty"] in ("std::sync::RwLock<bool>", "std::sync::Mutex<bool>") for l in f["leaves"])]
+    arb_cells = {}
+    for name, slot in (("error", "fn_error"), ("complete", "fn_complete")):
+        b = P.body(OBSERVER + "::" + name)
+        if b is None:
+            r.error("anchor missing: Observer::%s" % name)
+            continue
+        dom = b.dominators()
+        invs = [c for c in b.calls if atom(c) == "fw_call" and
+                any(rk == "param" and rd == 1 and path[:1] == (slot,) for (rk, rd, path) in b.operand_prov(c.args[0]))]
+        if not invs:
+            r.error("A19b: terminal invocation not found in Observer::%s" % name)
+            continue
+        # candidate arbiters: bool-returning Observer methods called on self whose true edge dominates the invocation
+        cands = []
+        for c in b.calls:
+            if not c.local or not c.path.startswith(OBSERVER + "::") or not c.args:
+                continue
+            if not all(rk == "param" and rd == 1 and not path for (rk, rd, path) in b.operand_prov(c.args[0])):
+                continue
+            cb = P.body(c.path)
+            if cb is None or cb.locals[0]["ty"]["s"] != "bool":
+                continue
+            for g in _branches_on_calls(b, [c]):
+                if all(g["true"] in dom[i.bb] and b.pred[g["true"]] == [g["switch"]] and g["true"] != g["false"] for i in invs):
+                    cands.append((c, cb))
+        found = None
+        for (c, cb) in cands:
+            for f in bool_fields:
+                try:
+                    interp = SlotInterp(P, ((f,),), bool_cells=(0,))
+                    o0 = interp.run(cb, (False,), {1: ()})
+                    o1 = interp.run(cb, (True,), {1: ()})
+                except Unsupported:
+                    continue
+                tas = (all(o.ret == 1 and o.state == (True,) for o in o0) and o0 and
+                       all(o.ret == 0 and o.state == (True,) for o in o1) and o1)
+                acqs, _, _ = cb.guards()
+                fa = {bb: a for bb, a in acqs.items() if any(rk == "param" and rd == 1 and path[:1] == (f,) for (rk, rd, path) in a["cell"])}
+                if tas and len(fa) == 1 and list(fa.values())[0]["mode"] in ("W", "M") and len(acqs) == 1:
+                    found = (c.path, f)
+        r.instance((b.nid, "arbiter"), True, "candidates %s -> test-and-set %s" % ([c.path for c, _ in cands], found))
+        if not found:
+            r.violate((b.nid, "terminal not arbitrated"),
+                      "Observer::%s delivers its terminal without first winning an atomic test-and-set (one write guard: read "
+                      "the flag, set it, report whether it was clear): a thread that passed the is_subscribed() gate can still "
+                      "deliver %s after another thread has delivered the other terminal" % (name, name), body=b, line=invs[0].line)
+            continue
+        arb_cells[name] = found
+        # the next slot is cleared before the terminal callback is invoked
+        ncl = [c.bb for c in b.calls if atom(c) == "fw_clear" and
+               any(rk == "param" and rd == 1 and path[:1] == ("fn_next",) for (rk, rd, path) in b.operand_prov(c.args[0]))]
+        r.instance((b.nid, "next cleared first"), True, "clear blocks %s" % ncl)
+        for i in invs:
+            if not ncl or Effects.path_avoiding(b, [i.bb], ncl) is not None:
+                r.violate((b.nid, "next slot not cleared before the terminal callback"),
+                          "the terminal callback can run (and return) while the next slot is still set: a next that starts "
+                          "after the terminal callback returned is still delivered", body=b, line=i.line)
+    if len(arb_cells) == 2 and arb_cells["error"] != arb_cells["complete"]:
+        r.violate((OBSERVER, "terminals arbitrated on different cells"),
+                  "error() and complete() each use their own test-and-set (%s vs %s): they do not exclude each other"
+                  % (arb_cells["error"], arb_cells["complete"]))
+    return r
